@@ -52,6 +52,8 @@ type op struct {
 	Kind    int    `json:"kind,omitempty"`
 	N       int    `json:"n,omitempty"`
 	New     bool   `json:"new,omitempty"`
+
+	fileID uint64 // chosen by the executor among existing state
 }
 
 type history struct {
@@ -87,7 +89,7 @@ func (area) Generate(r *rng.R, thorough bool, index int) json.RawMessage {
 	}
 	faults := func(o *op) {
 		if r.Chance(5) {
-			o.SeqMode = 1 + r.Intn(3)
+			o.SeqMode = []int{1, 2, 2, 3, 3}[r.Intn(5)]
 		}
 		if r.Chance(8) {
 			o.SidMode = 1 + r.Intn(7)
@@ -107,8 +109,8 @@ func (area) Generate(r *rng.R, thorough bool, index int) json.RawMessage {
 	}
 	for len(h.Ops) < n {
 		o := op{C: r.Intn(nclients), O: r.Intn(3), F: r.Intn(3), L: r.Intn(3)}
-		if r.Chance(6) {
-			o.Dt = []int{1, 5, 20, 40, 60, 101}[r.Intn(6)]
+		if r.Chance(4) {
+			o.Dt = []int{1, 5, 10, 20, 40, 101}[r.Intn(6)]
 		}
 		switch x := r.Intn(100); {
 		case x < 20:
@@ -133,8 +135,8 @@ func (area) Generate(r *rng.R, thorough bool, index int) json.RawMessage {
 			if r.Chance(6) {
 				o.OpenErr = 1 + r.Intn(2)
 			}
-			if r.Chance(5) {
-				o.SeqMode = 1 + r.Intn(3)
+			if r.Chance(3) {
+				o.SeqMode = []int{1, 2, 2, 3, 3}[r.Intn(5)]
 			}
 			if r.Chance(3) {
 				o.FhMode = 1 + r.Intn(3)
@@ -195,7 +197,7 @@ func (area) Generate(r *rng.R, thorough bool, index int) json.RawMessage {
 				o.FhMode = 1 + r.Intn(3)
 			}
 			o.Park = inflight && r.Chance(40)
-		case x < 81:
+		case x < 82:
 			o.K = "renew"
 		case x < 83:
 			o.K = "tick"
@@ -282,6 +284,7 @@ func nextSeq(s uint32) uint32 {
 // ---- executor -------------------------------------------------------------------
 
 type sent struct {
+	client  *cClient
 	fh      curfh
 	req     *mreq
 	park    bool
@@ -399,6 +402,11 @@ func (x *exec) finish(p *pendingTask, ev string) {
 	x.record(ev, reply, replyHash(t.res), calls)
 	if main != nil && p.s.onReply != nil {
 		p.s.onReply(main, t)
+	}
+	if cl := p.s.client; cl != nil && t.res.Status == nfsv4.NFS4ERR_STALE_CLIENTID {
+		// the client learns that its registration is gone
+		cl.confirmed = 0
+		cl.reset()
 	}
 }
 
@@ -540,6 +548,9 @@ func (x *exec) releaseParked(i int) {
 // ---- building requests from ops ---------------------------------------------------
 
 func (x *exec) fileFor(o op, own *cOwner) (uint64, bool) {
+	if o.fileID != 0 {
+		return o.fileID, true
+	}
 	if id, ok := own.byName[o.F%3]; ok {
 		return id, true
 	}
@@ -623,9 +634,10 @@ func (x *exec) foreignSid(c *cClient, not int) *nfsv4.Stateid4 {
 		if i == not {
 			continue
 		}
-		for _, s := range ow.sids {
-			s := s
-			return &s
+		for id := uint64(0); id < x.e.nextID; id++ {
+			if s, ok := ow.sids[id]; ok {
+				return &s
+			}
 		}
 	}
 	return nil
@@ -638,12 +650,79 @@ func (x *exec) run(o op) {
 	if o.Dt > 0 {
 		x.e.now.Add(int64(o.Dt))
 	}
-	c := x.clients[o.C%3]
+	ci := o.C % 3
+	if o.K != "setclientid" && o.K != "confirm" {
+		// prefer a client that believes it is registered
+		var live []int
+		for i, cl := range x.clients {
+			if cl.confirmed != 0 && cl.confirmed == cl.short {
+				live = append(live, i)
+			}
+		}
+		if len(live) > 0 {
+			ci = live[o.C%len(live)]
+		}
+	}
+	c := x.clients[ci]
+	o.C = ci
+	// Operations on existing state pick among the (owner, file) pairs the
+	// client holds a state ID for; indices are taken modulo what exists.
+	if o.K != "open" && !(o.K == "openconfirm" && o.N == 1) {
+		type cand struct {
+			oi int
+			id uint64
+		}
+		var cands []cand
+		for oi, ow := range c.owners {
+			for id := uint64(0); id < x.e.nextID; id++ {
+				if _, ok := ow.sids[id]; ok {
+					cands = append(cands, cand{oi, id})
+				}
+			}
+		}
+		needsState := o.K == "openconfirm" || o.K == "close" || o.K == "downgrade" || o.K == "lock" || o.K == "locku" || o.K == "io"
+		if len(cands) > 0 {
+			k := cands[(o.O*3+o.F)%len(cands)]
+			o.O = k.oi
+			o.fileID = k.id
+		} else if needsState && (o.O+o.F+o.L+o.LType)%6 != 0 {
+			return // nothing to operate on (one in six goes out with a made-up state ID)
+		}
+		// lock-owners that hold a lock state ID for the chosen pair
+		if o.K == "locku" || o.K == "lock" || (o.K == "io" && o.SidMode == 8) {
+			var ls []int
+			for li, lo := range c.lowners {
+				if _, ok := lo.sids[lockKey{o.O % 3, o.fileID}]; ok {
+					ls = append(ls, li)
+				}
+			}
+			if len(ls) > 0 && (o.K != "lock" || o.L%2 == 0) {
+				o.L = ls[o.L%len(ls)]
+			} else if o.K == "locku" {
+				// any lock state ID of the client
+				found := false
+				for li, lo := range c.lowners {
+					for oi := 0; oi < 3; oi++ {
+						for id := uint64(0); id < x.e.nextID; id++ {
+							key := lockKey{oi, id}
+							if _, ok := lo.sids[key]; ok && (!found || (key.o*7+int(key.id)+li)%3 == o.L%3) {
+								o.L, o.O, o.fileID, found = li, key.o, key.id, true
+							}
+						}
+					}
+				}
+				if !found && (o.O+o.F+o.L)%6 != 0 {
+					return
+				}
+			}
+		}
+	}
 	own := c.owners[o.O%3]
 	low := c.lowners[o.L%3]
 	long := uint64(o.C%3 + 1)
 	x.info.Ops[o.K]++
 	logSend := func(s *sent) {
+		s.client = c
 		x.sentLog = append(x.sentLog, s)
 		x.send(s)
 	}
@@ -719,6 +798,9 @@ func (x *exec) run(o op) {
 		id, _ := x.fileFor(o, own)
 		cur, have := own.sids[id]
 		if !have {
+			if o.K == "openconfirm" && o.N == 1 {
+				return // the OPEN this confirmation follows did not succeed
+			}
 			cur = garbageSid()
 		}
 		old, haveOld := own.old[id]
